@@ -921,7 +921,9 @@ def check_fit(tn, name, ns, kind, seed, extra):
         elif name == 'cross':
             val = {'zero': 0., 'constant': 2.}.get(kind)
             a = [np.array([float(1 + (i % 3)) for i in range(n)]) for n in ns]
-            if val is None:
+            if kind == 'lowrank':
+                f = lambda X: np.array([1. + float(np.sum(x)) for x in X])  # noqa   (TT-rank 2)
+            elif val is None:
                 f = lambda X: np.array([float(np.prod([a[k][int(i)] for k, i in enumerate(x)])) for x in X])  # noqa
             else:
                 f = lambda X: np.full(len(X), val)  # noqa
@@ -933,8 +935,9 @@ def check_fit(tn, name, ns, kind, seed, extra):
                 fy = f(I)
                 kwc = dict(I_vld=I, y_vld=(fy * vs if np.any(fy) else np.full(len(I), vs)) if vs else fy,
                            e_vld=extra.get('e_vld', 1e-12))
-            Z = tn.cross(f, Y0, m=extra.get('m', 400), e=extra.get('e'), nswp=extra.get('nswp', 3), dr_min=extra.get('dr', 1),
-                         dr_max=extra.get('dr', 1) + 1, info=info, cache={} if extra.get('cache') else None, **kwc)
+            Z = tn.cross(f, Y0, m=extra.get('m', 400), e=extra.get('e'), nswp=extra.get('nswp', 3),
+                         dr_min=extra.get('dr_min', extra.get('dr', 1)), dr_max=extra.get('dr_max', extra.get('dr', 1) + 1),
+                         info=info, cache={} if extra.get('cache') else None, **kwc)
             for key in ('e', 'e_vld'):
                 if key in info and info[key] is not None and not np.isfinite(info[key]):
                     if key == 'e_vld' and np.isnan(info[key]) and vs and vs > 1e154:
@@ -1027,6 +1030,22 @@ def check_misc(tn, what, arg):
             ns = [n] * d
             if 'e' in info and info['e'] is not None and not np.isfinite(info['e']):
                 return dict(what=f"als_func info['e'] = {info['e']!r} (neither finite nor the sentinel -1)", input=inp)
+        elif what == '_maxvol':
+            A = np.array(arg['A'], dtype=float)
+            n, r = A.shape
+            I, B = tn._maxvol(A.copy(), dr_min=arg['dr_min'], dr_max=arg['dr_max'])
+            I = np.asarray(I)
+            lo, hi = r + min(arg['dr_min'], arg['dr_max'], max(n - r, 0)), r + min(arg['dr_max'], max(n - r, 0))
+            if n <= r:
+                lo = hi = n
+            bad = None
+            if I.ndim != 1 or len(set(I.tolist())) != len(I) or (len(I) and (I.min() < 0 or I.max() >= n)):
+                bad = f'row numbers {I.tolist()} are not distinct rows of a {n} x {r} matrix'
+            elif not (lo <= len(I) <= hi):
+                bad = f'{len(I)} rows selected, expected between {lo} and {hi}'
+            elif not np.isfinite(B).all() or B.shape != (n, len(I)):
+                bad = f'coefficient matrix of shape {B.shape} / non-finite'
+            return dict(what='_maxvol (rank-growth window) ' + bad, input=inp) if bad else None
         elif what == 'matrix_svd':
             A = np.array(arg['A'], dtype=float)
             U, V = tn.matrix_svd(A, **{k: arg[k] for k in ('e', 'r') if k in arg})
@@ -1070,7 +1089,7 @@ def _replay_one(tn, inp):
         return check_scale(tn, inp['what'], tt_of_json(inp['Y']), inp['kwargs'], inp['tol'])
     if r in ('anova', 'als', 'cross'):
         return check_fit(tn, r, inp['ns'], inp['kind'], inp['seed'], inp['extra'])
-    if r in ('tt_to_qtt', 'svd_matrix', 'func_int', 'matrix_svd', 'matrix_skeleton', 'core_tt_to_qtt', 'anova_func', 'als_func'):
+    if r in ('tt_to_qtt', 'svd_matrix', 'func_int', 'matrix_svd', 'matrix_skeleton', 'core_tt_to_qtt', 'anova_func', 'als_func', '_maxvol'):
         return check_misc(tn, r, inp['arg'])
     return None
 
@@ -1207,6 +1226,25 @@ def search(R, ctx, deep, hints):
                 for lk in LAMB:
                     n_eval += 1
                     add(check_misc(tn, 'als_func', dict(d=d_, m=10, n=3, kind=kind, y0=y0, seed=rng.randrange(10 ** 6), **lk)))
+    # 4e. rank-growth window of TT-cross / _maxvol: dr_min >= 2, dr_max below and above what a core can carry, modes so
+    #     small that an unfolding is taller than wide by fewer than dr_min rows, start ranks 1 .. over-ranked
+    WIN = [(0, 0), (0, 2), (1, 1), (1, 3), (2, 2), (2, 3), (3, 3), (2, 50), (4, 4)]
+    for ns in [[2, 2], [3, 3, 3], [3, 4, 3], [1, 3, 1, 3], [2, 2, 2], [2, 1, 3]] + ([[4, 2, 4, 2], [5, 5]] if deep else []):
+        for r0 in (1, 2, 5):
+            for (a_, b_) in WIN:
+                for kind in rng.sample(['zero', 'constant', 'rank1', 'lowrank'], 2):
+                    n_eval += 1
+                    add(check_fit(tn, 'cross', ns, kind, rng.randrange(10 ** 6),
+                                  dict(r=r0, nswp=rng.choice([2, 3]), m=None if rng.random() < 0.5 else 300, dr_min=a_,
+                                       dr_max=b_, cache=rng.random() < 0.4)))
+    for n_ in range(1, 8):
+        for r_ in range(1, 5):
+            Q = np.linalg.qr(np.array([[float(rng.randint(-3, 3)) + 0.25 * ((i * 7 + j * 3) % 5) for j in range(r_)]
+                                       for i in range(n_)]))[0] if n_ > r_ else \
+                np.array([[float(rng.randint(-3, 3)) for _ in range(r_)] for _ in range(n_)])
+            for (a_, b_) in WIN:
+                n_eval += 1
+                add(check_misc(tn, '_maxvol', dict(A=Q.tolist(), dr_min=a_, dr_max=b_)))
     # 4c. reference values whose squares underflow / approach overflow: finite value or the sentinel -1, never NaN
     for ns in ([3, 2], [2, 3, 2]):
         Ia = [[rng.randrange(n) for n in ns] for _ in range(4)]
